@@ -54,9 +54,9 @@ def Quirks.ofList (l : List String) : Quirks :=
     mctrlXSplits := l.contains "mctrlXSplits"
     dimacsSingleClause := l.contains "dimacsSingleClause"
     retSymbolAndConst := l.contains "retSymbolAndConst"
-    cseHoistsOverBindings := l.contains "cseHoistsOverBindings" }
+    cseHoistsOverBindings := l.contains "cseHoistsOverBindings"
     retFlatNames := l.contains "retFlatNames"
-    formatOutcomeIntPadRight := l.contains "formatOutcomeIntPadRight" }
+    formatOutcomeIntPadRight := l.contains "formatOutcomeIntPadRight"
     djDecodeEqZero := l.contains "djDecodeEqZero" }
 
 end QV
